@@ -112,6 +112,97 @@ func trPurity(pkg *packages.Package, name string, roots []string) (string, error
 				}
 			}
 		}
+		// slices that are provably fresh (made inside the call): every definition is make / a composite literal / nil /
+		// append(fresh, ...). An append whose base is anything else may write into a backing array that outlives the call
+		// (e.g. append(input[:k], ...) overwrites the caller's slice).
+		fresh := map[types.Object]bool{}
+		var defs []*ast.AssignStmt
+		ast.Inspect(fd.Body, func(x ast.Node) bool {
+			if a, ok := x.(*ast.AssignStmt); ok && len(a.Lhs) == len(a.Rhs) {
+				defs = append(defs, a)
+				for _, l := range a.Lhs {
+					if id, ok := l.(*ast.Ident); ok {
+						if o := pkg.TypesInfo.ObjectOf(id); o != nil && locals[o] {
+							fresh[o] = true
+						}
+					}
+				}
+			}
+			return true
+		})
+		if fd.Type.Params != nil {
+			for _, f := range fd.Type.Params.List {
+				for _, id := range f.Names {
+					if o := pkg.TypesInfo.ObjectOf(id); o != nil {
+						fresh[o] = false
+					}
+				}
+			}
+		}
+		isFreshExpr := func(e ast.Expr) bool {
+			switch v := e.(type) {
+			case *ast.CompositeLit:
+				return true
+			case *ast.Ident:
+				if v.Name == "nil" {
+					return true
+				}
+				o := pkg.TypesInfo.ObjectOf(v)
+				return o != nil && fresh[o]
+			case *ast.CallExpr:
+				if id, ok := v.Fun.(*ast.Ident); ok {
+					if id.Name == "make" {
+						return true
+					}
+					if id.Name == "append" && len(v.Args) > 0 {
+						if b, ok := v.Args[0].(*ast.Ident); ok {
+							o := pkg.TypesInfo.ObjectOf(b)
+							return o != nil && fresh[o]
+						}
+					}
+				}
+			}
+			return false
+		}
+		for changed := true; changed; {
+			changed = false
+			for _, a := range defs {
+				for i, l := range a.Lhs {
+					id, ok := l.(*ast.Ident)
+					if !ok {
+						continue
+					}
+					o := pkg.TypesInfo.ObjectOf(id)
+					if o == nil || !fresh[o] {
+						continue
+					}
+					if _, isSlice := o.Type().Underlying().(*types.Slice); !isSlice {
+						continue
+					}
+					if !isFreshExpr(a.Rhs[i]) {
+						fresh[o] = false
+						changed = true
+					}
+				}
+			}
+		}
+		ast.Inspect(fd.Body, func(x ast.Node) bool {
+			if c, ok := x.(*ast.CallExpr); ok {
+				if id, ok := c.Fun.(*ast.Ident); ok && id.Name == "append" && len(c.Args) > 0 {
+					if _, isBuiltin := pkg.TypesInfo.ObjectOf(id).(*types.Builtin); isBuiltin {
+						base, isId := c.Args[0].(*ast.Ident)
+						var o types.Object
+						if isId {
+							o = pkg.TypesInfo.ObjectOf(base)
+						}
+						if !isId || o == nil || !(fresh[o] || base.Name == "nil") {
+							writes = append(writes, n+": append("+types.ExprString(c.Args[0])+", ...) into a slice that is not fresh")
+						}
+					}
+				}
+			}
+			return true
+		})
 		ast.Inspect(fd.Body, func(x ast.Node) bool {
 			switch s := x.(type) {
 			case *ast.AssignStmt:
